@@ -30,7 +30,7 @@ ASSUMPTIONS = ['Python dict/list semantics on a deep copy are the reference (doc
                'dict order after a reload is the sorted-key order the SQLite provider writes (only popitem depends on it)',
                'obj._status_ is read as a secondary signal for read-only programs']
 SHARDS = {'quick': 4, 'thorough': 16}
-MIN_EVALS = {'quick': 12000, 'thorough': 90000}
+MIN_EVALS = {'quick': 12000, 'thorough': 60000}
 CLASS_FLOORS = {'readonly': 0.1, 'origin:loaded': 0.25, 'origin:flushed': 0.15, 'kind:array': 0.1,
                 'aug:local': 0.03, 'aug:item': 0.012, 'containers_in_nonlist_iterable': 0.005,
                 'mutated_inserted_container': 0.03, 'via_alias': 0.015, 'session:flush': 0.03, 'session:reload': 0.03}
@@ -240,7 +240,7 @@ def run(ctx):
         ctx.check_time()
         evaluate(ctx, case, 'grid')
     ctx.run_test(lambda case: evaluate(ctx, case, 'random'), dict(case=M.strategies()),
-                 max_examples=ctx.scale(1200, 6000), name='programs')
+                 max_examples=ctx.scale(1200, 4000), name='programs')
 
 
 def replay(case):
